@@ -42,7 +42,7 @@ def c15(ctx):
         ctx.nontrivial.add(k)
     # following on the own terminals of real devices (Devices.tla family follow): return values, and the own slots after an aborted update
     import p_devices
-    p_devices.run_devices(ctx, [("devfollow", p_devices.dev_cfg("follow", [], 3, rich=not q), 4, None)], 1 if q else 3, observe="ret")
+    p_devices.run_devices(ctx, [("devfollow", p_devices.dev_cfg("follow", [], 3, rich=not q), 4, None)], 1 if q else 3, observe="ret", out_name="dev_behaviours.ndjson")
     # the history adapter over a real history: GetterFromHistory in all its forms over the real MotionProfile of every exact move
     import p_profile
     p_profile.run_profile(ctx, "adapter", rich=not q)
